@@ -5,6 +5,7 @@ import Driver.WFStage
 import Driver.SemStage
 import Driver.ShapeStage
 import Driver.SitesStage
+import Driver.StaticStage
 
 open Theo.Drv
 
@@ -23,6 +24,7 @@ def handle (line : String) : String :=
   | "SEM" :: rest => handleSem rest
   | "SHAPE" :: rest => handleShape rest
   | "SITES" :: rest => handleSites rest
+  | "STATIC" :: rest => handleStatic rest
   | _ => "BADREQ"
 
 partial def loop (h : IO.FS.Stream) (out : IO.FS.Stream) : IO Unit := do
